@@ -20,7 +20,6 @@ import (
 	"net/url"
 	"regexp"
 	"strconv"
-	"strings"
 	"testing"
 
 	"github.com/google/gce-tcb-verifier/extract/extractsev"
@@ -75,6 +74,9 @@ var familyPool = []string{
 	"11111111-2222-3333-4444-555555555555",
 }
 
+// familyDraw weights the pool towards the family ids the statement speaks about.
+var familyDraw = append([]string{sev.GCEUefiFamilyID, sev.GCEUefiFamilyID, sev.GCEFwCertGUID, sev.GCEUefiFamilyID, sev.GCEFwCertGUID}, familyPool...)
+
 func isGCEFamily(f string) bool { return f == sev.GCEUefiFamilyID || f == sev.GCEFwCertGUID }
 
 type named struct {
@@ -89,6 +91,9 @@ func (n named) name() string {
 	}
 	return extractsev.GCETcbObjectName(n.Family, n.M)
 }
+
+// inStatement: the statement speaks about TDX names and about SEV-SNP names for the GCE family.
+func (n named) inStatement() bool { return n.Tech == "tdx" || isGCEFamily(n.Family) }
 
 // key is the tuple the name has to be an injective function of. Both GCE family ids map to the one
 // GCE prefix by design; every other family id is outside the statement and only has to stay clear
@@ -120,12 +125,15 @@ func genMeasurement(t *rapid.T, label string) []byte {
 
 func TestNaming(t *testing.T) {
 	const name = "naming"
-	ev.Rule(name, "pairs (technology, family id, measurement) x2: second measurement is equal / one bit apart / a prefix or extension (different length 0..64) / independent; technologies sevsnp|tdx, family ids from {GCE family id, GCE cert GUID, empty, zero, upper-case GCE id, foreign}. Oracle: for GCE family ids the name matches ^ovmf_x64_csm/(sevsnp|tdx)/[0-9a-f]{2n}\\.binarypb$, names the generated technology and hex-decodes back to the measurement (round trip => injective); GCETcbURL(name) == bucket + name and parses as a URL whose path is /gce_tcb_integrity/<name>; names/URLs equal <=> (technology, family class, measurement) equal, in particular SNP and TDX names never collide; same input twice gives the same name. non-trivial = the two tuples differ in exactly one of technology / one bit / length; distinct = (relation, technologies, lengths, family classes)")
+	ev.Rule(name, "pairs (technology, family id, measurement) x2: second measurement is equal / one bit apart / a prefix or extension (different length 0..64) / independent; technologies sevsnp|tdx, family ids from {GCE family id, GCE cert GUID, empty, zero, upper-case GCE id, foreign}, the second tuple mostly with the family id of the first. Oracle: for TDX and for SEV-SNP with a GCE family id (the tuples the statement speaks about) the name matches ^ovmf_x64_csm/(sevsnp|tdx)/[0-9a-f]{2n}\\.binarypb$, names the generated technology and hex-decodes back to the measurement (round trip => injective), and two such names/URLs are equal <=> (technology, measurement) equal, in particular SNP and TDX names never collide; for any other family id only: two names under the same family id are equal <=> the measurements are equal; always: GCETcbURL(name) == bucket + name and parses as a URL whose path is /gce_tcb_integrity/<name>; same input twice gives the same name. non-trivial = both tuples are ones the statement speaks about and differ in exactly one of technology / one bit / length; distinct = (relation, technologies, lengths, family classes)")
 	checks(ev.Scale(2000, 32000))
 	rapid.Check(t, func(t *rapid.T) {
-		a := named{Tech: rapid.SampledFrom([]string{"sevsnp", "tdx"}).Draw(t, "techA"), Family: rapid.SampledFrom(familyPool).Draw(t, "famA")}
+		a := named{Tech: rapid.SampledFrom([]string{"sevsnp", "tdx"}).Draw(t, "techA"), Family: rapid.SampledFrom(familyDraw).Draw(t, "famA")}
 		a.M = genMeasurement(t, "mA")
-		b := named{Tech: rapid.SampledFrom([]string{"sevsnp", "tdx"}).Draw(t, "techB"), Family: rapid.SampledFrom(familyPool).Draw(t, "famB")}
+		b := named{Tech: rapid.SampledFrom([]string{"sevsnp", "tdx"}).Draw(t, "techB"), Family: a.Family}
+		if rapid.IntRange(0, 2).Draw(t, "otherFamily") == 2 {
+			b.Family = rapid.SampledFrom(familyDraw).Draw(t, "famB")
+		}
 		rel := rapid.SampledFrom([]string{"equal", "bit", "prefix", "extend", "independent"}).Draw(t, "relation")
 		switch rel {
 		case "equal":
@@ -171,14 +179,10 @@ func TestNaming(t *testing.T) {
 				ev.Violation(t, "C16/naming/url", "GCETcbURL(%q) = %q does not parse to the bucket object (err %v)", c.nm, u, err)
 				return
 			}
-			if c.n.Tech == "sevsnp" && !isGCEFamily(c.n.Family) {
-				// outside the statement: only demand that the measurement is still recoverable and the
-				// technology directory is there.
-				suffix := "/sevsnp/" + hex.EncodeToString(c.n.M) + ".binarypb"
-				if !strings.HasSuffix(c.nm, suffix) || strings.HasPrefix(c.nm, familyPfx+"/") {
-					ev.Violation(t, "C16/naming/pattern", "foreign family id %q: name %q (want <non-GCE prefix>%s)", c.n.Family, c.nm, suffix)
-					return
-				}
+			if !c.n.inStatement() {
+				// Family ids other than the two GCE ones (a foreign GUID, the empty string, a different
+				// spelling of the GCE id) are outside the statement: what prefix they map to is the
+				// implementation's business. Only injectivity in the measurement is demanded below.
 				continue
 			}
 			mm := nameRe.FindStringSubmatch(c.nm)
@@ -196,10 +200,20 @@ func TestNaming(t *testing.T) {
 				return
 			}
 		}
-		same := a.key() == b.key()
-		if (na == nb) != same || (verify.GCETcbURL(na) == verify.GCETcbURL(nb)) != same {
-			ev.Violation(t, "C16/naming/collision", "tuples %s and %s (equal=%v) are named %q and %q", a.key(), b.key(), same, na, nb)
-			return
+		switch {
+		case a.inStatement() && b.inStatement():
+			same := a.key() == b.key()
+			if (na == nb) != same || (verify.GCETcbURL(na) == verify.GCETcbURL(nb)) != same {
+				ev.Violation(t, "C16/naming/collision", "tuples %s and %s (equal=%v) are named %q and %q", a.key(), b.key(), same, na, nb)
+				return
+			}
+		case a.Tech == "sevsnp" && b.Tech == "sevsnp" && a.Family == b.Family:
+			// one and the same family id, whatever it is: the name is an injective function of the
+			// measurement
+			if same := bytes.Equal(a.M, b.M); (na == nb) != same {
+				ev.Violation(t, "C16/naming/collision", "family id %q: measurements %x and %x (equal=%v) are named %q and %q", a.Family, a.M, b.M, same, na, nb)
+				return
+			}
 		}
 		diffs := 0
 		if a.Tech != b.Tech {
@@ -213,12 +227,15 @@ func TestNaming(t *testing.T) {
 			diffs++
 		}
 		class := rel
+		if !a.inStatement() || !b.inStatement() {
+			class = "foreign-family/" + rel
+		}
 		if a.Tech != b.Tech {
 			class += "/cross-tech"
 		} else {
 			class += "/" + a.Tech
 		}
-		ev.Case(name, diffs == 1, fmt.Sprintf("%s|%s|%s|%d|%d|%v|%v", rel, a.Tech, b.Tech, len(a.M), len(b.M), famA, famB), class, func() any {
+		ev.Case(name, diffs == 1 && a.inStatement() && b.inStatement(), fmt.Sprintf("%s|%s|%s|%d|%d|%v|%v", rel, a.Tech, b.Tech, len(a.M), len(b.M), famA, famB), class, func() any {
 			return map[string]any{"a": a.key(), "b": b.key(), "name_a": na, "name_b": nb, "relation": rel}
 		})
 	})
